@@ -34,8 +34,9 @@ def keys (t : Table) : List String := t.map (·.1)
 
 end Table
 
-/-- Places where the unchanged code deviates from the property; `asIs` mirrors /repo today,
-`repaired` is the variant with every proposed patch applied. -/
+/-- Places where the code deviated from the property.  `asWas` is the code at the pinned snapshot
+(before the `fix:` commits 08b47a6, 56f80b7, 64cd2bb, 2d52c5a in /repo); `asIs` mirrors /repo's current
+HEAD, in which every one of these is repaired.  The tie (harness/c16.go) is against `asIs`. -/
 structure Defects where
   /-- conf.FieldsFromStruct resolves clashes between a struct's own fields and the fields of its
       embedded structs by *declaration order* (merge loop) instead of Go's depth rule -/
@@ -59,8 +60,8 @@ structure Defects where
   fetchDerefOnce : Bool
   deriving DecidableEq, Repr
 
-def Defects.asIs : Defects := ⟨true, true, true, true, true, true, true, true⟩
-def Defects.repaired : Defects := ⟨false, false, false, false, false, false, false, false⟩
+def Defects.asWas : Defects := ⟨true, true, true, true, true, true, true, true⟩
+def Defects.asIs : Defects := ⟨false, false, false, false, false, false, false, false⟩
 
 /-! ## Spec: what Go / `reflect` resolve (the selector rule)
 
